@@ -83,6 +83,16 @@ def hook(S, fn, bb, t, args, path):
         f = S.find_fn(tgt) if tgt else None
         if f is not None:
             return ("inline", f)
+    # `x.into()` with a generic source type inside Cons::new / Value::cons: decided by the value at hand
+    if ("std::convert::Into::into" in nm or "std::convert::From::from" in nm) and d and (c.get("substs") or ["", ""])[-1] == V:
+        if isinstance(d[0], Adt) and d[0].adt == V:
+            return ("value", d[0])
+        if isinstance(d[0], Adt) and d[0].adt == "cons::Cons":
+            for crate in S.crates:
+                if V in crate.adts:
+                    for var in crate.adts[V]["variants"]:
+                        if var["name"] == "Cons":
+                            return ("value", Adt(V, var["idx"], [d[0]], "Cons"))
     # text comparisons on concrete key texts
     def text(v):
         if isinstance(v, Adt) and v.adt == "std::boxed::Box" and v.fields and isinstance(v.fields[0], Adt) and v.fields[0].fields:
